@@ -17,7 +17,7 @@ C05  generate_circ():  see below.
 Anything outside the expected shapes raises pyx.Unsupported (fail closed)."""
 import ast
 import pyx
-from pyx import Unsupported, parse, find_class, find_func, body_nodoc
+from pyx import Unsupported, parse, find_class, body_nodoc
 
 GATES = "src/qib/operator/gates.py"
 UTIL = "src/qib/util/util.py"
@@ -68,6 +68,93 @@ def expect_text(node, text, what):
         raise Unsupported("%s: expected `%s`, found `%s`" % (what, text, got))
 
 
+def is_doc(n):
+    return isinstance(n, ast.Expr) and isinstance(n.value, ast.Constant) and isinstance(n.value.value, str)
+
+
+def bound_names(n):
+    """names a module-/class-level statement binds"""
+    if isinstance(n, (ast.ClassDef, ast.FunctionDef, ast.AsyncFunctionDef)):
+        return [n.name]
+    if isinstance(n, ast.Import):
+        return [(a.asname or a.name.split(".")[0]) for a in n.names]
+    if isinstance(n, ast.ImportFrom):
+        return [(a.asname or a.name) for a in n.names]
+    if isinstance(n, (ast.Assign, ast.AnnAssign, ast.AugAssign)):
+        tg = n.targets if isinstance(n, ast.Assign) else [n.target]
+        return [x.id for t in tg for x in ast.walk(t) if isinstance(x, ast.Name)]
+    return []
+
+
+def strict_module(tree, path, imports):
+    """fail closed unless the module body is docstring / imports / classes / functions only (no statement that
+    could rebind or patch a translated definition after the fact), every top-level name is bound exactly once,
+    and every name in `imports` {name: module} is imported under its own name from that module"""
+    count = {}
+    for n in tree.body:
+        if is_doc(n):
+            continue
+        if not isinstance(n, (ast.Import, ast.ImportFrom, ast.ClassDef, ast.FunctionDef)):
+            raise Unsupported("%s: module-level statement `%s`" % (path, U(n)[:80]))
+        if isinstance(n, (ast.ClassDef, ast.FunctionDef)) and n.decorator_list:
+            raise Unsupported("%s: decorated top-level definition %s" % (path, n.name))
+        for x in bound_names(n):
+            count[x] = count.get(x, 0) + 1
+    dup = sorted(x for x, k in count.items() if k > 1)
+    expect(not dup, "%s: top-level names bound more than once: %s" % (path, ", ".join(dup)))
+    for name, module in imports.items():
+        if module.startswith("import "):       # `import numpy as np`
+            ok = any(isinstance(n, ast.Import) and any(a.name == module[7:] and (a.asname or a.name) == name for a in n.names)
+                     for n in tree.body)
+        else:
+            ok = any(isinstance(n, ast.ImportFrom) and n.module == module and n.level == 0
+                     and any(a.name == name and a.asname in (None, name) for a in n.names) for n in tree.body)
+        expect(ok, "%s: `%s` is not imported from %s" % (path, name, module))
+
+
+UTIL_INIT = "src/qib/util/__init__.py"
+
+
+def parse_gates():
+    tree = parse(GATES)
+    strict_module(tree, GATES, {"csr_matrix": "scipy.sparse", "map_particle_to_wire": "qib.util", "copy": "copy",
+                                "np": "import numpy"})
+    # qib.util re-exports the two functions of util.py that are translated
+    init = parse(UTIL_INIT)
+    strict_module(init, UTIL_INIT, {"map_particle_to_wire": "qib.util.util", "permute_gate_wires": "qib.util.util"})
+    return tree
+
+
+def parse_util():
+    tree = parse(UTIL)
+    strict_module(tree, UTIL, {"np": "import numpy"})
+    return tree
+
+
+def parse_circ():
+    tree = parse(CIRC)
+    strict_module(tree, CIRC, {"copy": "copy"})
+    return tree
+
+
+def parse_svsim():
+    tree = parse(SVSIM)
+    strict_module(tree, SVSIM, {"np": "import numpy", "math": "import math"})
+    return tree
+
+
+def ufunc(node, name):
+    """the unique, undecorated definition of `name` in a module or class body; no other binding of the name"""
+    defs = [n for n in node.body if name in bound_names(n)]
+    expect(len(defs) == 1 and isinstance(defs[0], ast.FunctionDef),
+           "%s: expected exactly one plain definition of %s, found %d binding(s)" % (getattr(node, "name", "module"), name, len(defs)))
+    fn = defs[0]
+    expect(not fn.decorator_list, "%s is decorated" % name)
+    expect(fn.args.vararg is None and fn.args.kwarg is None and not fn.args.kwonlyargs and not fn.args.posonlyargs,
+           "%s: unexpected parameter kinds" % name)
+    return fn
+
+
 def range_args(call, what):
     expect(isinstance(call, ast.Call) and U(call.func) == "range" and not call.keywords and 1 <= len(call.args) <= 2,
            what + ": not a range(...)")
@@ -100,8 +187,8 @@ def accum_loop(stmts, var, tr, what):
 
 
 def gen_distribute():
-    tree = parse(GATES)
-    fn = find_func(tree, "_distribute_to_wires")
+    tree = parse_gates()
+    fn = ufunc(tree, "_distribute_to_wires")
     expect([a.arg for a in fn.args.args] == ["nwires", "iwire", "gmat"], "_distribute_to_wires: parameters")
     b = body_nodoc(fn)
     expect(len(b) == 14, "_distribute_to_wires: expected 14 statements, found %d" % len(b))
@@ -238,14 +325,14 @@ def gate_classes(tree):
 
 
 def gen_acm():
-    tree = parse(GATES)
+    tree = parse_gates()
     kinds = []
     for c in gate_classes(tree):
-        f = find_func(c, "as_circuit_matrix")
+        f = ufunc(c, "as_circuit_matrix")
         expect([a.arg for a in f.args.args] == ["self", "fields"], c.name + ".as_circuit_matrix parameters")
         b = body_nodoc(f)
         txt = [U(s) for s in b]
-        part = find_func(c, "particles")
+        part = ufunc(c, "particles")
         pret = body_nodoc(part)
         if txt[-4:] == TAIL_ONE:
             guards = b[:-4]
@@ -270,8 +357,8 @@ def gen_acm():
 
 
 def gen_mp2w():
-    tree = parse(UTIL)
-    fn = find_func(tree, "map_particle_to_wire")
+    tree = parse_util()
+    fn = ufunc(tree, "map_particle_to_wire")
     expect([a.arg for a in fn.args.args] == ["fields", "p"], "map_particle_to_wire parameters")
     b = body_nodoc(fn)
     expect(len(b) == 3, "map_particle_to_wire: 3 statements")
@@ -322,8 +409,8 @@ def natexpr(e, env):
 
 
 def gen_permute():
-    tree = parse(UTIL)
-    fn = find_func(tree, "permute_gate_wires")
+    tree = parse_util()
+    fn = ufunc(tree, "permute_gate_wires")
     expect([a.arg for a in fn.args.args] == ["u", "perm"], "permute_gate_wires parameters")
     b = body_nodoc(fn)
     expect(len(b) == 7, "permute_gate_wires: 7 statements")
@@ -361,10 +448,10 @@ COPY_CALL = ("copy",)
 def copy_rules():
     """per Gate subclass: for each gate-valued field (tgate / tgates) whether __copy__ copies it deeply.
     returns [(class name, has gate-valued field, deep?)] in source order"""
-    tree = parse(GATES)
+    tree = parse_gates()
     rules = []
     for c in gate_classes(tree):
-        f = find_func(c, "__copy__")
+        f = ufunc(c, "__copy__")
         b = body_nodoc(f)
         expect(b and isinstance(b[-1], ast.Return), c.name + ".__copy__: return")
         # the constructor call: either `return Cls(args)` or `gate = Cls(args)` ... `return gate`
@@ -375,7 +462,7 @@ def copy_rules():
                 ctor = v
                 break
         expect(ctor is not None, c.name + ".__copy__: no constructor call of the same class")
-        init = find_func(c, "__init__")
+        init = ufunc(c, "__init__")
         params = [a.arg for a in init.args.args][1:]
         # which constructor parameters are stored as gate-valued fields
         gate_fields = {}
@@ -437,11 +524,11 @@ def generate_circ():
                % "".join("  | %d%%nat => false\n" % i for i, r in enumerate(rules) if r[1] and not r[2]))
     out.append("Definition gen_num_classes : nat := %d%%nat.\n" % len(rules))
     # builder calls
-    tree = parse(CIRC)
+    tree = parse_circ()
     circ = find_class(tree, "Circuit")
     sem = []
     for name, (params, text, ctor) in BUILDERS.items():
-        f = find_func(circ, name)
+        f = ufunc(circ, name)
         expect([a.arg for a in f.args.args] == params, "Circuit.%s parameters" % name)
         b = body_nodoc(f)
         expect(len(b) == 1, "Circuit.%s: one statement" % name)
@@ -450,7 +537,7 @@ def generate_circ():
     out.append("(* builder calls found with the copying list semantics of CircModel.apply_builder: %s *)" % ", ".join(sem))
     out.append("Definition gen_builders_copy : bool := true.\n")
     # __init__: by reference
-    init = find_func(circ, "__init__")
+    init = ufunc(circ, "__init__")
     ib = body_nodoc(init)
     expect(len(ib) == 1 and isinstance(ib[0], ast.If), "Circuit.__init__ shape")
     txt = U(ib[0])
@@ -461,7 +548,7 @@ def generate_circ():
     else:
         raise Unsupported("Circuit.__init__: `%s`" % txt)
     # as_matrix loop
-    am = find_func(circ, "as_matrix")
+    am = ufunc(circ, "as_matrix")
     b = body_nodoc(am)
     expect(len(b) == 5, "Circuit.as_matrix: 5 statements")
     expect_text(b[0], "self._control_instructions_warning()", "as_matrix warning")
@@ -475,9 +562,9 @@ def generate_circ():
     out.append("(* Circuit.as_matrix: first gate's matrix, then mat = E(gate) @ mat  (CircModel.circuit_matrix) *)")
     out.append("Definition gen_as_matrix_left_mult : bool := true.\n")
     # statevector loop
-    tree = parse(SVSIM)
+    tree = parse_svsim()
     sv = find_class(tree, "StatevectorSimulator")
-    run = find_func(sv, "run")
+    run = ufunc(sv, "run")
     b = body_nodoc(run)
     expect(len(b) == 5, "StatevectorSimulator.run: 5 statements")
     expect_text(b[0], "fields = circ.fields()", "run fields")
